@@ -39,7 +39,9 @@ def seed():
 
 
 def workdir(name):
-    d = os.path.join(WORK, name)
+    # runs with another seed or tier may share the machine with the default run of the same check
+    sfx = ("" if seed() == 1 else f"_s{seed()}") + ("_th" if TIER["tier"] == "thorough" else "")
+    d = os.path.join(WORK, name + sfx)
     shutil.rmtree(d, ignore_errors=True)
     os.makedirs(d, exist_ok=True)
     return d
